@@ -324,6 +324,9 @@ class Gen:
         except ZeroDivisionError:
             return False
         outs = [self.fresh() for _ in vals]
+        if opn not in ('getitem', 'mklist') and any(isinstance(self.val.get(a), list) and len(self.val[a]) >= 2 for a in args) \
+                and self.rng.random() < 0.12:
+            p = dict(p, _mut=True)       # the caller scrambles its list right after the call (see dsim/prog.py)
         self.stmts.append([opn, outs, list(args), p])
         for o, v, k in zip(outs, vals, kinds):
             self.val[o] = v
